@@ -342,6 +342,8 @@ impl embedded_io_async::Write for ScriptIo {
 }
 
 // ---------------- executor ----------------
+const MAX_WAITS: u64 = 64;
+const STUTTER_MS: u64 = 100;
 /// Poll `fut` to completion under the runner's rules; None = the future was dropped (cancelled).
 fn exec<F: Future>(shared: &Shared, fut: F) -> Option<F::Output> {
     let mut cx = Context::from_waker(Waker::noop());
@@ -373,7 +375,7 @@ fn exec<F: Future>(shared: &Shared, fut: F) -> Option<F::Output> {
                 let target = match deadline {
                     Some(d) => {
                         if d <= now {
-                            Some(now + 1)
+                            Some(now + STUTTER_MS)
                         } else {
                             Some(match t1 {
                                 Some(t) => t.min(d),
@@ -383,13 +385,11 @@ fn exec<F: Future>(shared: &Shared, fut: F) -> Option<F::Output> {
                     }
                     None => t1,
                 };
+                let target = if spins >= MAX_WAITS { None } else { target };
                 let Some(target) = target else { return None };
                 set_now_ms(target);
                 shared.borrow_mut().log.push(format!("t {}", target));
                 spins += 1;
-                if spins > 2_000_000 {
-                    panic!("executor spin limit");
-                }
             }
         }
     }
